@@ -253,7 +253,7 @@ impl<'a, 't> Interp<'a, 't> {
         *self
             .counters
             .statements_by_kind
-            .entry(format!("{}@{}", s.kind.name(), depth.min(4)))
+            .entry(format!("{}@{}", s.kind.name(), depth.min(6)))
             .or_insert(0) += 1;
         if depth > self.counters.max_depth_executed {
             self.counters.max_depth_executed = depth;
